@@ -103,5 +103,5 @@ def replay(ctx, c):
 
 def run(ctx):
     q = ctx.tier == "quick"
-    hyp_run(ctx, "compliant+defects", st.tuples(FP.project_state(compliant_bias=True), st.booleans()), lambda c: check(ctx, c), 110 if q else 2500)
-    hyp_run(ctx, "random", case_random, lambda c: check(ctx, c), 50 if q else 1200)
+    hyp_run(ctx, "compliant+defects", st.tuples(FP.project_state(compliant_bias=True), st.booleans()), lambda c: check(ctx, c), 110 if q else 1800)
+    hyp_run(ctx, "random", case_random, lambda c: check(ctx, c), 50 if q else 800)
